@@ -360,6 +360,17 @@ func targets() []*target {
 			params: []string{"(f_newChild : bytes -> eref)", "(f_withSkip : eref -> Z -> eref)", "(s_name : bytes)", "(s_extraFrames : Z)", "(extraFrames : Z)"},
 			result: "eref", final: "eref_nil"},
 
+		// nest: s.ops is only read (a list of (group, attrs)); the attributes are slices of heap cells; NewGroupedAttr
+		// is a parameter; the loop runs len(s.ops) rounds (i goes from len-1 down to 0): fuel len+1
+		{pkg: slogPkg, recv: "handler4LogSlog", fn: "nest", coq: "handler_nest", file: "Handlers", strict: true, fallback: "AdaptRef.handler_nest_ref",
+			comment: "(returns (the attributes, the heap); None = panic / out of fuel)", panicT: "None", retfmt: "Some (%s)", effects: []string{"heap_"},
+			tymap:  map[string]string{"[]handlerOp": "list (bytes * hslice)", "handlerOp": "bytes * hslice", "Attrs": "hslice", "Attr": "acell"},
+			fields: map[string]string{"group": "fst", "attrs": "snd"}, globals: []string{"fst", "snd"},
+			fuels:  []string{"S (List.length s_ops)"},
+			calls:  map[string]callSpec{"NewGroupedAttr": {pure: "f_group %0 (h_read heap_ %1)", spread: true}},
+			params: []string{"(h_zero : acell)", "(f_growcap : nat -> nat)", "(f_group : bytes -> list acell -> acell)", "(s_ops : list (bytes * hslice))", "(fields : hslice)", "(heap_ : heap acell)"},
+			result: "option (hslice * heap acell)", final: "None"},
+
 		// ---- RegisterLevel (C17): the options arrive resolved (the regPack fields after every opt ran: o_*);
 		// the seven tables are the state the function hands back; a map write overwrites (mapZ_set / mapB_set) ----
 		{pkg: slogPkg, recv: "", fn: "RegisterLevel", coq: "register", file: "Registry", strict: true, fallback: "RegRef.register_ref",
